@@ -368,8 +368,13 @@ func runSolver(ctx context.Context, sp solverSpec, text string, dir, base string
 
 // discharge races the solver portfolio on one obligation.
 func discharge(o *Obligation, prelude, dir string, timeoutS, seed int, both bool) {
-	if o.Expect == "sat" && timeoutS > 3 {
-		timeoutS = 3
+	use := solvers
+	if o.Expect == "sat" {
+		// vacuity guards: look for a refutation for a short time with two configurations
+		if timeoutS > 2 {
+			timeoutS = 2
+		}
+		use = []solverSpec{solvers[0], solvers[3]}
 	}
 	text := o.Text(prelude, true)
 	o.Bytes = len(text)
@@ -380,16 +385,24 @@ func discharge(o *Obligation, prelude, dir string, timeoutS, seed int, both bool
 	base = fmt.Sprintf("%s.%d", base, time.Now().UnixNano()%1000000)
 	ctx, cancel := context.WithCancel(context.Background())
 	defer cancel()
-	ch := make(chan solveResult, len(solvers))
+	if !both && o.Expect != "sat" {
+		// stage 1: one fast E-matching run; most obligations end here
+		r := runSolver(ctx, solvers[1], text, dir, base+".s1", 2, seed)
+		if r.verdict == "unsat" {
+			o.Status, o.Solver, o.TimeS, o.Agree = "discharged", r.solver, r.dur.Seconds(), 1
+			return
+		}
+	}
+	ch := make(chan solveResult, len(use))
 	start := time.Now()
-	for _, sp := range solvers {
+	for _, sp := range use {
 		go func(sp solverSpec) { ch <- runSolver(ctx, sp, text, dir, base, timeoutS, seed) }(sp)
 	}
 	var results []solveResult
 	decided := 0
 	bases := map[string]bool{}
 	var final *solveResult
-	for range solvers {
+	for range use {
 		r := <-ch
 		results = append(results, r)
 		if r.verdict == "unsat" || r.verdict == "sat" {
